@@ -363,6 +363,9 @@ pub struct Tx {
     pub recv_cancelled: bool,
     pub transmissions: u32,
     pub incarnation: u64,
+    /// a response with this id was dropped for lack of valid integrity while it was outstanding
+    /// (C07: the transaction must go on exactly as if that response had never arrived)
+    pub forged_dropped: bool,
 }
 
 #[derive(Clone, Copy, Debug, PartialEq, Eq)]
@@ -497,6 +500,15 @@ impl<'c> Eng<'c> {
     fn fail(&mut self, tag: &str, assertion: &str, entry: &str, feature: &str, expected: String, observed: String) {
         self.failed = true;
         let w = self.wit();
+        // C07: "it is dropped, the transaction stays outstanding with its retransmission timing
+        // unchanged".  While a transaction that had a response dropped for lack of valid integrity
+        // is still outstanding in the model, any lifecycle / timing / payload disagreement is
+        // (also) a C07 matter: the C07 check reports it under its own id.
+        if self.ctx.prop == "C07" && matches!(tag, "C05" | "C06" | "C18") && self.model.txs.values().any(|t| t.forged_dropped) {
+            let a = format!("dropped-response-leaves-no-trace/{assertion}");
+            self.ctx.violation("C07", &a, entry, feature, || w, expected, observed);
+            return;
+        }
         self.ctx.violation(tag, assertion, entry, feature, || w, expected, observed);
     }
 
@@ -889,7 +901,7 @@ impl<'c> Eng<'c> {
                     self.model.next_incarnation += 1;
                     self.model.txs.insert(
                         i,
-                        Tx { bytes, to: dest as usize, had_integrity: sealed, k: 0, last: now, iv, fin, send_cancelled: false, recv_cancelled: false, transmissions: 1, incarnation: inc },
+                        Tx { bytes, to: dest as usize, had_integrity: sealed, k: 0, last: now, iv, fin, send_cancelled: false, recv_cancelled: false, transmissions: 1, incarnation: inc, forged_dropped: false },
                     );
                     self.ctx.count("requests-started");
                 } else {
@@ -1056,6 +1068,12 @@ impl<'c> Eng<'c> {
             }
             R::Drop => {
                 self.ctx.count("response-dropped-outstanding");
+                if must_drop && !tx.recv_cancelled {
+                    if let Some(m) = self.model.txs.get_mut(&i) {
+                        m.forged_dropped = true;
+                    }
+                    self.ctx.count("forged-response-dropped-then-monitored");
+                }
             }
             _ => self.fail("C05", "response-reply-kind", "StunAgent::handle_stun", "", "StunResponse or Drop".into(), rname),
         }
@@ -1463,7 +1481,12 @@ pub fn replay(ctx: &mut Ctx, w: &Value) -> Result<(), String> {
     let shift = w.get("shift_ms").and_then(|s| s.as_u64()).unwrap_or(0);
     // hash order is nondeterministic: replay on several fresh agents
     for i in 0..16 {
-        run_history(ctx, &h, &RunCfg { shift_ms: shift, trap_clock: true, noise_agents: i % 4 == 3, ..Default::default() });
+        let r = run_history(ctx, &h, &RunCfg { shift_ms: shift, trap_clock: true, noise_agents: i % 4 == 3, ..Default::default() });
+        if i == 0 && std::env::var_os("STUNMON_VERBOSE").is_some() {
+            for l in &r.log {
+                eprintln!("{l}");
+            }
+        }
         ctx.eval();
         if ctx.has_violations() {
             break;
